@@ -8,6 +8,7 @@ import (
 	"path/filepath"
 	"strings"
 	"sync"
+	"sync/atomic"
 	"testing"
 	"time"
 
@@ -27,8 +28,16 @@ var c18Unblock struct {
 	released chan struct{}
 }
 
+var c18SendDelay atomic.Int32 // >0 while a case announces listeners across its Kill
+
 func TestC18(t *testing.T) {
 	plugin.VerifSetHook(func(name string, id uint32) {
+		if name == "grpcbroker.stream.sending" && c18SendDelay.Load() > 0 {
+			// while listeners are being announced across a Kill: widen the moment in which a message is
+			// between the send queue and the wire
+			time.Sleep(2 * time.Millisecond)
+			return
+		}
 		if name != "grpcmux.client.unblocked" {
 			return
 		}
@@ -197,6 +206,8 @@ func TestC18(t *testing.T) {
 		stopStorm := make(chan struct{})
 		var stormWG sync.WaitGroup
 		if g, isGRPC := cli.(*vp.GRPCCli); isGRPC && p.KillRacesAccepts && !mux {
+			c18SendDelay.Add(1)
+			defer c18SendDelay.Add(-1)
 			for i := 0; i < 8; i++ {
 				stormWG.Add(1)
 				go func() {
